@@ -747,7 +747,7 @@ pub fn replay(part: &str, case: serde_json::Value) -> Option<CaseResult> {
 pub fn meta() -> EvidenceMeta {
     EvidenceMeta {
         level: "exploration",
-        rule: "cases = limit N in {0,1,2,63,64,1023,1024,1025, random <= 5000} x pre-existing active file (absent / N-1 / N / N+1 / random) x append or truncate mode x window count 1-3 x pattern or multi-chunk encoder x 1-25 operations: appends whose byte length is chosen relative to the room left before the limit (room-3..room+3) or absolute around the 1 KiB buffer, with 1-4-byte characters, and restarts; the real CompoundPolicy(SizeTrigger, FixedWindowRoller) is wrapped in a harness Policy recording len_estimate and fs::metadata().len() at every consultation. Oracle: exactly one consultation per append; len_estimate == on-disk size == model size (pre-existing + records; 0 at open in truncate mode); rotation during this append iff size > N; afterwards the active file is absent or <= N bytes and byte-identical to pre-existing ++ records; the newest archive equals the rolled content. The configured path may be a symbolic link to the pre-existing file. Part long: 70 000 appends of 10 bytes through one open file whose limit is reached after 65 540 of them, accounting checked at every consultation. Part self-archiving: a user-defined policy that closes the file with LogFile::roll(), reads the size once more and moves the file itself: the size shown before and after roll() equals the file's. Scripted roller failures may happen after the real roller archived the file. Part huge: sparse pre-existing files and limits around 4-20 GiB, and limits no file can reach (2^63 - 1, 2^63, 2^63 + 1, u64::MAX - 1, u64::MAX: 'never roll'), three appends each, same accounting. Part pre-processing: a user-defined pre-processing policy around the real size trigger and a roller failing on scripted calls: consulted before the record is written, it must be shown the true size every time, also right after a failed roll made the appender close its file. Part contended: 2-4 threads append through one appender whose encoder hands records over in pieces and dawdles; at every consultation len_estimate == on-disk size and the file is rolled iff that size > N. non-trivial = a consultation with |size - N| <= 1, or pre-existing content in append mode, or multi-byte payload, or a scripted roller failure (user-defined roller around the real one that fails on chosen calls and leaves the file in place: accounting and re-triggering must stay exact)".into(),
+        rule: "cases = limit N in {0,1,2,63,64,1023,1024,1025, random <= 5000} x pre-existing active file (absent / N-1 / N / N+1 / random) x append or truncate mode x window count 1-3 x pattern or multi-chunk encoder x 1-25 operations: appends whose byte length is chosen relative to the room left before the limit (room-3..room+3) or absolute around the 1 KiB buffer, with 1-4-byte characters, and restarts; the real CompoundPolicy(SizeTrigger, FixedWindowRoller) is wrapped in a harness Policy recording len_estimate and fs::metadata().len() at every consultation. Oracle: exactly one consultation per append; len_estimate == on-disk size == model size (pre-existing + records; 0 at open in truncate mode); rotation during this append iff size > N; afterwards the active file is absent or <= N bytes and byte-identical to pre-existing ++ records; the newest archive equals the rolled content. The configured path may be a symbolic link to the pre-existing file. Part long: 70 000 appends of 10 bytes through one open file whose limit is reached after 65 540 of them, accounting checked at every consultation. Part self-archiving: a user-defined policy that closes the file with LogFile::roll(), reads the size once more and moves the file itself: the size shown before and after roll() equals the file's. Scripted roller failures may happen after the real roller archived the file. Part huge: sparse pre-existing files and limits around 4-20 GiB, and limits no file can reach (2^63 - 1, 2^63, 2^63 + 1, u64::MAX - 1, u64::MAX: 'never roll'), three appends each, same accounting. Part pre-processing: a user-defined pre-processing policy around the real size trigger and a roller failing on scripted calls: consulted before the record is written, it must be shown the true size every time, also right after a failed roll made the appender close its file. Part contended: 2-4 threads append through one appender whose encoder hands records over in pieces and dawdles; at every consultation len_estimate == on-disk size and the file is rolled iff that size > N. Further inputs (round 15): the first characters of a message may arrive as char arguments. non-trivial = a consultation with |size - N| <= 1, or pre-existing content in append mode, or multi-byte payload, or a scripted roller failure (user-defined roller around the real one that fails on chosen calls and leaves the file in place: accounting and re-triggering must stay exact)".into(),
         assumptions: vec!["foreground rotation build".into()],
         mutants_caught: vec![],
     }
